@@ -73,7 +73,7 @@ BASE_NOT_APPLICABLE = {
     'assertmatrix', 'ismatrix', 'assertvector', 'isscalar', 'isnumberlist', 'isvectorlist', 'r2q', 'rand', 'ishom2', 'isrot2',
     'trlog2', 'trinterp2', 'trprint2', 'trplot2', 'tranimate2', 'trinv2', 'ishom', 'isrot', 'trlog', 'trnorm', 'trinterp', 'trinv',
     'tr2delta', 'tr2jac', 'trprint', 'trplot', 'tranimate', 't2r', 'r2t', 'tr2rt', 'isR', 'isskew', 'isskewa', 'iseye', 'vex',
-    'vexa', 'h2e', 'e2h', 'homtrans', 'angdiff', 'iszero', 'Animate', 'Animate2', 'plotvol2', 'plotvol3',
+    'vexa', 'h2e', 'e2h', 'homtrans', 'iszero', 'Animate', 'Animate2', 'plotvol2', 'plotvol3',
 }
 
 CLASSES = [
@@ -140,6 +140,8 @@ CLASSES = [
     E('SE3.Rx', [V(None)], {'unit': U}, tags={'unit_in:vec'}), E('SE3.Ry', [V(None)], {'unit': U}, tags={'unit_in:vec'}),
     E('SE3.Rz', [V(None)], {'unit': U}, tags={'unit_in:vec'}),
     E('UnitQuaternion.Ry', [V(None)], {'unit': U}, tags={'unit_in:vec'}), E('UnitQuaternion.Rz', [V(None)], {'unit': U}, tags={'unit_in:vec'}),
+    # element-wise helpers taking "array_like" angles: list / tuple / 1-D array must be interchangeable (row and column keep their shape)
+    E('base.angdiff', [V(None)], tags={'forms3', 'nolength'}), E('base.angdiff', [V(None), A], tags={'forms3', 'nolength'}),
 ]
 
 
